@@ -16,6 +16,31 @@ EXPLANATION = (
 NOT_DECIDED = "what the datagram socket does; ordering across separate service passes when new packets are queued in between"
 
 
+def deferred_requeued(ctx, rule):
+    """every caller of GramStack._serviceOneTxPkt puts the packets it deferred back on .txPkts (shared with C25: a
+    transient destination error means retry, not drop)"""
+    G = ctx.cls("stacking", "GramStack")
+    so_ = G.own_method("_serviceOneTxPkt")
+    # every caller of _serviceOneTxPkt owns the `laters` it passes and puts the deferred packets back on .txPkts
+    callers = 0
+    for mname, m in G.methods.items():
+        if m is so_ or getattr(m, "_module", None) is not so_._module:
+            continue
+        W = FuncView(ctx, m)
+        for n, c in W.calls("self._serviceOneTxPkt"):
+            callers += 1
+            a0 = c.args[0] if c.args else next((k.value for k in c.keywords if k.arg == "laters"), None)
+            back = [x for x, cc in W.calls(("self.txPkts.append", "self.txPkts.extend")) if isinstance(a0, ast.Name) and a0.id in src(cc)]
+            okc = isinstance(a0, ast.Name) and bool(back) and W.cfg.always_reaches([n.id], [b.id for b in back], skip_exc=True) is not False
+            # the re-queue sits in a `while laters:` loop: reaching the loop test is what every path must do
+            loops = [t for t in W.cfg.nodes if t.kind == "test" and isinstance(t.ast, ast.While) and isinstance(a0, ast.Name) and dotted(t.ast.test) == a0.id]
+            if isinstance(a0, ast.Name) and loops:
+                okc = all(W.cfg.always_reaches([n.id], [t.id for t in loops], skip_exc=True) for _ in [0]) and bool(back)
+            ctx.check(okc, rule, c, "%s: packets deferred by _serviceOneTxPkt(%s, ..) are put back on .txPkts" % (mname, src(a0) if a0 is not None else "?"),
+                      "a packet deferred after a transient send error must stay queued for retry; a throw-away `laters` drops it silently")
+    ctx.floor(rule + ":callers", callers, 2)
+
+
 def check(ctx):
     ctx.rule("T2-drain", "the drain loop over txPkts has no early exit; deferred packets re-queued FIFO at the tail afterwards")
     ctx.rule("T1-blocked", "send dominated by `ha not in blockeds`; blocked => deferred once")
@@ -54,6 +79,7 @@ def check(ctx):
               "deferred packets are re-queued in FIFO order at the tail after the drain (while laters: txPkts.append(laters.popleft()))",
               "re-queuing the deferred packets in reversed order (extendleft) or at the head of a non-empty queue changes the "
               "per-destination order")
+    deferred_requeued(ctx, "T2-drain")
     so = G.own_method("_serviceOneTxPkt")
 
     def send_may_raise(node):
